@@ -358,7 +358,7 @@ func c16Case(w *fw.W, idx int, r *fw.Rand) {
 			if r.Bool() {
 				m := r.Range(1, 3)
 				for i := 0; i < m; i++ {
-					macro += "// #EnableDice " + r.Pick([]string{"wod", "coc", "fate", "doublecross"}) + " " + r.Pick([]string{"true", "false"}) + "\n"
+					macro += "// #EnableDice " + r.Pick([]string{"wod", "coc", "fate", "doublecross", "wod", "coc", "dnd", "WoD", "CoC", "stmts", "d20", "x", "doublecross2"}) + " " + r.Pick([]string{"true", "false"}) + "\n"
 				}
 				if r.P(1, 6) {
 					macro = "// #EnableDiceWoD true\n" // the guide's spelling: just a comment
